@@ -19,7 +19,7 @@ RULE = ('case = outcome word over {delivered+acked, uplink lost, ack lost} (ALL 
         'submission schedule, observed frame-sequence hash).')
 ASSUMPTIONS = ['peer model = nRF51 ESB safelink rules (see vf/radiosim.py)', 'each transmission costs 1 ms of virtual time',
                'null packet = header 0xFF/0xF3 with empty payload; the 3-byte ff 05 01 negotiation frame is not data']
-REQUIRED = ['mon.slow_link_cases_without_error_callback', 'mon.packets_refused_after_waiting_for_the_queue', 'mon.downlink_link_service_packets_with_data', 'mon.acknowledgements_without_payload', 'mon.words_exhaustive', 'mon.random_words', 'mon.uplink_packets', 'mon.downlink_packets', 'mon.downlink_header_only_packets', 'mon.uplink_header_only_packets', 'mon.link_errors_expected',
+REQUIRED = ['mon.full_stack_cases_with_a_dongle_transaction_of_more_than_a_second', 'mon.slow_link_cases_without_error_callback', 'mon.packets_refused_after_waiting_for_the_queue', 'mon.downlink_link_service_packets_with_data', 'mon.acknowledgements_without_payload', 'mon.words_exhaustive', 'mon.random_words', 'mon.uplink_packets', 'mon.downlink_packets', 'mon.downlink_header_only_packets', 'mon.uplink_header_only_packets', 'mon.link_errors_expected',
             'mon.negotiation_loss_cases', 'mon.no_safelink_cases', 'mon.full_stack_cases', 'mon.multi_submitter_cases',
             'mon.second_start_up_of_the_same_driver_object']
 EXHAUSTIVE = {'quick': False, 'thorough': False}
@@ -362,6 +362,13 @@ def run_stack(desc, ctx, rnd):
     dev = radiosim.FakeUsbRadio(outcomes=word)
     peer = radiosim.Peer()
     dev.peers[(chan, rate, addr)] = peer
+    stall = 0.0
+    if desc['seed'] % 3 == 0:
+        # the USB bus stalls once: one transaction with the dongle takes more than a second (write and read each stay below
+        # their own 1000 ms time-out, so the transaction completes and nothing is lost)
+        a, b = rnd.uniform(0.5, 0.95), rnd.uniform(0.55, 0.95)
+        dev.stalls[rnd.randint(3, 30)] = (a, b)
+        stall = a + b
     ups = [mkpk(1000 + i, rnd, header_only_ok=True) for i in range(rnd.randint(1, 25))]
     downs = [mkpk(2000 + i, rnd, header_only_ok=True, link_service_ok=True) for i in range(rnd.randint(1, 25))]
     for d in downs:
@@ -380,7 +387,7 @@ def run_stack(desc, ctx, rnd):
         for u in ups:
             if drv.send_packet(CRTPPacket(u[0], list(u[1]))):
                 ob['sent_ok'] += 1
-        t_end = s.now + 3.0
+        t_end = s.now + 3.0 + stall
         while s.now < t_end:
             p = drv.receive_packet(0.05)
             if p is not None:
@@ -393,6 +400,7 @@ def run_stack(desc, ctx, rnd):
         cr._find_devices = old_find
     ctx.evals()
     ctx.count('mon.full_stack_cases')
+    ctx.count('mon.full_stack_cases_with_a_dongle_transaction_of_more_than_a_second', dev.stalled)
     info = {'uri': uri, 'uplink': len(ups), 'downlink': len(downs)}
     if abort is not None:
         ctx.violate('radio:stack:hang:%s' % type(abort).__name__, dict(info, abort=str(abort), threads=abort.table))
